@@ -995,11 +995,16 @@ func (r *Runner) execMerge(op *Op) (touched [][]byte, global bool, fail *Fail) {
 	if len(op.Race) > 0 && r.IO != nil {
 		scanned := 0
 		r.IO.OnPoint = func(name string, key []byte) {
-			if name != "merge.scan" {
+			// At < 0: right after the merge rotation released the lock (before the scan starts);
+			// At >= 0: at the At-th scanned record
+			at := scanned
+			if name == "merge.rotated" {
+				at = -1
+			} else if name != "merge.scan" {
 				return
 			}
 			for i := range op.Race {
-				if op.Race[i].At == scanned && raceFail == nil {
+				if op.Race[i].At == at && raceFail == nil {
 					w := op.Race[i].Op
 					switch w.K {
 					case "put":
@@ -1021,7 +1026,9 @@ func (r *Runner) execMerge(op *Op) (touched [][]byte, global bool, fail *Fail) {
 					touched = append(touched, w.Key)
 				}
 			}
-			scanned++
+			if name == "merge.scan" {
+				scanned++
+			}
 		}
 		defer func() { r.IO.OnPoint = nil }()
 	}
@@ -1233,7 +1240,11 @@ func (r *Runner) AddLabels() {
 
 // AsCase packages the executed history for replay.
 func (r *Runner) AsCase(property, kind string, first Opt) *Case {
-	return &Case{Property: property, Kind: kind, Opt: first, Ops: r.Ops}
+	c := &Case{Property: property, Kind: kind, Opt: first, Ops: r.Ops}
+	if r.Poison != nil {
+		c.Note = "caller reuses its key/value buffers"
+	}
+	return c
 }
 
 // Abbrev renders a short human-readable form of the history for samples.
